@@ -97,6 +97,16 @@ def corpus():
         chain.append(("iface", "IC%d" % i, prev, [M("m%d" % i, [("in", "uint32", None, "x")]), ("error", "E%d" % i), ("const", "uint32", "K%d" % i, str(i))]))
         prev = "IC%d" % i
     out.append(("long_chain", fs1(chain)))
+    # a shared header reached more than once, through include strings with directory parts (.., ., a
+    # sub-directory): one file, loaded once, whatever the spelling
+    types = [("const", "uint32", "LIMIT", "7"), ("struct", "Rec", [("uint64", 1, "id"), ("uint32", 2, "v")]), ("iface", "IRoot", None, [M("ping", [("in", "Rec", None, "r")]), ("error", "E_ROOT")])]
+    for tag, sp1, sp2, sp3 in (("dotdot", "../common/types.idl", "../common/types.idl", "IBase.idl"),
+                               ("mixed", "../common/types.idl", "./../common/./types.idl", "./IBase.idl"),
+                               ("through_sub", "../common/types.idl", "../api/../common/types.idl", "../api/IBase.idl")):
+        out.append(("diamond_" + tag, {"files": [
+            {"path": "api/IService.idl", "includes": [sp3, sp1], "decls": [("iface", "IService", "IBase", [M("serve", [("in", "Rec", None, "r"), ("out", "Rec", None, "s")])])]},
+            {"path": "api/IBase.idl", "includes": [sp2], "decls": [("iface", "IBase", "IRoot", [M("base", [("in", "Rec", "[]", "rs")]), ("const", "uint32", "B", "1")])]},
+            {"path": "common/types.idl", "includes": [], "decls": types}], "main": "api/IService.idl", "idirs": []}))
     return out
 
 
